@@ -12,6 +12,9 @@ def run(vc, tier):
     q = tier == 'quick'
     r = c.run_vx_unit('c15-histories', SRC, 'ovf', ['--mode', 0, '--depth', 2 if q else 3, '--D', 1 if q else 2, '--exec-timeout', 120000], share=0.8)
     c.run_vx_unit('c15-marathon', SRC, 'ovf-limit', ['--mode', 2, '--D', 0, '--exec-timeout', 120000], share=0.5)
+    # a reused multithreaded context (job table, serial state with its long-distance-matching tables, pools): the C07 multithreaded unit, whose histories are
+    # earlier frames on the same context
+    c.run_vx_unit('c15-mt-reuse', ['harness/c07_purity.c', 'ref/edu_decoder.c'], 'sched-asan', ['--mode', 2, '--D', 0, '--exec-timeout', 60000], extra_flags='-DVERIF_C07_MT', engine_srcs=['engine/vsched.c'], share=0.5)
     r2 = c.run_vx_unit('c15-decoder-ring', SRC, 'ovf', ['--mode', 1, '--D', 0], share=0.9)
     c.states = r.done.get('outcomes', 0) + r2.done.get('outcomes', 0); c.transitions = r.stats.get('frames', 0) + r2.done.get('executions', 0); c.traces_validated = r.done.get('executions', 0)
     c.extra['overflow_corrections_seen'] = r.stats.get('overflow_corrections_seen', 0)
